@@ -629,7 +629,20 @@ def _as_text(rng, b: bytes, p_str=0.3, allow_bad=True):
     return {"b": b.hex()}
 
 
+EDGE = [b"\n", b"\r", b" ", b"\t", b"\x00", b":", b"\r\n", b"\n\n", b"\x0b", b"\x0c", b"\x85", b"\x1c"]
+
+
+def _edge_name(rng):
+    """a valid token with one more byte (or break) at its end or start: what a sloppy token test lets through"""
+    base = rng.choice([b"X-Custom", b"x-a", b"Content-Type", b"etag", b"a"])
+    e = rng.choice(EDGE)
+    b = base + e if rng.random() < 0.65 else e + base
+    return {"s": list(b)} if rng.random() < 0.4 else {"b": b.hex()}
+
+
 def _name(rng):
+    if rng.random() < 0.08:
+        return _edge_name(rng)
     r = rng.random()
     if r < 0.72:
         return _as_text(rng, rng.choice(GOOD_NAMES), allow_bad=False) if rng.random() < 0.9 else \
@@ -792,6 +805,15 @@ def gen(rng, tier):
                     cases.append({"split": False, "reqs": [
                         {"v11": v11, "head": head, "close": False, "ops": route + [["write", w.hex()] for w in writes]},
                         {"v11": True, "head": False, "close": True, "ops": [["write", b"next".hex()]]}]})
+    # systematic: a valid token followed / preceded by each single suspicious byte, as bytes and as str, by every call
+    for base in (b"X-Custom", b"a"):
+        for e in EDGE:
+            for nm in (base + e, e + base):
+                for t in ({"b": nm.hex()}, {"s": list(nm)}):
+                    for op in (["set", t, [{"b": b"value".hex()}]], ["set", dict(t, via="setHeader"), [{"b": b"value".hex()}]],
+                               ["add", t, {"b": b"value".hex()}], ["rm", t]):
+                        cases.append({"split": False, "reqs": [{"v11": True, "head": False, "close": False,
+                                                                "ops": [op, ["write", b"x".hex()]]}]})
     # systematic: the application itself announces "Connection: close" (or something that only looks like it)
     conn = {"b": b"connection".hex()}
     for val in (b"close", b"Close", b" close ", b"keep-alive, close", b"close,foo", b"CLOSE\t", b"closed", b"keep-alive", b"x-close", b"close;q=1"):
